@@ -119,6 +119,7 @@ func propC02(r *kernel.Run) {
 	tp := r.Tape
 	loader := tp.Draw(2) == 0
 	srv := NewWorld(r, "server", Pick2(tp, "inmem", "storeonce"), tp.Draw(2) == 0, loader)
+	srv.St.EmptyOnMiss = loader && tp.Draw(2) == 0 // a NodeIdLoader may answer an unknown node ID with an empty set instead of ErrNotFound
 	rotate := func() {
 		if _, err := rotation.RotateRootCertificates(srv.Ctx, srv.Storage, srv.Opts()...); err != nil {
 			r.HarnessErr("roots: %v", err)
@@ -325,6 +326,19 @@ func c02Adversary(r *kernel.Run, tp *kernel.Tape, w *Wire, srv *World, loader bo
 		mut = "mutated"
 		r.Count("fault.alpn_byte_mutation", 1)
 	}
+	// entries under the other library prefixes mixed into the list (dispatch handles the first library entry only)
+	mix := Pick2(tp, "none", "none", "none", "fetch-entry-appended", "fetch-entry-prepended", "second-auth-list-appended")
+	switch mix {
+	case "fetch-entry-appended":
+		alpn = append(alpn, nodeenrollment.FetchNodeCredsNextProtoV1Prefix+"00-AAAA")
+	case "fetch-entry-prepended":
+		alpn = append([]string{nodeenrollment.FetchNodeCredsNextProtoV1Prefix + "00-AAAA"}, alpn...)
+	case "second-auth-list-appended":
+		alpn = append(alpn, "h2", nodeenrollment.AuthenticateNodeNextProtoV1Prefix+"99-AAAA")
+	}
+	if mix != "none" {
+		r.Count("fault.mixed_library_prefixes", 1)
+	}
 	prefKind := Pick2(tp, "valid", "valid", "garbage", "absent")
 	switch prefKind {
 	case "valid":
@@ -369,8 +383,8 @@ func c02Adversary(r *kernel.Run, tp *kernel.Tape, w *Wire, srv *World, loader bo
 	w.Quiesce()
 	w.Take()
 	recPresent := countNodeInfos(srv)[keyID(pubPkix)] != nil
-	desc := fmt.Sprintf("cert=%s presenter=%s claim=%s nonceSig=%s skip=%v cn=%q nodeID=%s(%q) state=%s pref=%s %s loader=%v | holdsKey=%v chainTrusted=%v recordOfPresentedKey=%v recordVerifiesNonce=%v -> authenticated=%v",
-		certKind, me.name, claim.name, sigKind, req.SkipVerification, req.CommonName, hint, req.NodeId, stateKind, prefKind, mut, loader, adv.holdsKey, chainOK, recPresent, recOK, authed)
+	desc := fmt.Sprintf("cert=%s presenter=%s claim=%s nonceSig=%s skip=%v cn=%q nodeID=%s(%q) state=%s pref=%s %s mix=%s loader=%v | holdsKey=%v chainTrusted=%v recordOfPresentedKey=%v recordVerifiesNonce=%v -> authenticated=%v",
+		certKind, me.name, claim.name, sigKind, req.SkipVerification, req.CommonName, hint, req.NodeId, stateKind, prefKind, mut, mix, loader, adv.holdsKey, chainOK, recPresent, recOK, authed)
 	*hist = append(*hist, desc)
 	r.Count("cases", 1)
 	r.Count("ops.adversarial_connection", 1)
@@ -393,7 +407,7 @@ func c02Adversary(r *kernel.Run, tp *kernel.Tape, w *Wire, srv *World, loader bo
 		}
 		r.Violate("auth-only-registered", "authenticated-unregistered/"+why, "%s", desc)
 	}
-	r.FP(certKind, sigKind, req.SkipVerification, hint, stateKind, prefKind, mut, adv.holdsKey, chainOK, recOK, authed)
+	r.FP(certKind, sigKind, req.SkipVerification, hint, stateKind, prefKind, mut, mix, adv.holdsKey, chainOK, recOK, authed)
 	r.StateFP(certKind, sigKind, allowed, authed)
 }
 
